@@ -122,7 +122,9 @@ def fea(draw):
                 body = ["lookup user_%s {" % bname, "    " + m] + ["    " + r for r in rule] + ["} user_%s;" % bname]
                 m = None
                 pos = "nested"
-            if draw(st.integers(0, 4)) == 0:
+            if m is None and draw(st.integers(0, 5)) == 0:
+                body = []  # an empty block: the usual way to switch an automatic feature off
+            elif draw(st.integers(0, 4)) == 0:
                 body = ["# a comment"] + body
             out.append("feature %s {\n    %s\n} %s;" % (bname, "\n    ".join(body), bname))
             meta[bname] = {"marker": m, "pos": pos if m is not None else None, "body": body}
